@@ -415,7 +415,7 @@ def prove_item(kind, name, tier, seed, known=()):
         if ob.kind == "canary":
             return ob, smt.solve(text, 2, order=("z3-new",))
         alts = [("slim", query_text(ctx, ob, slim=True))]
-        if len(ob.hyps) > 60:
+        if len(ob.hyps) > 30:
             alts.append(("slim2", query_text(ctx, ob, slim=2)))
             alts.append(("tight", query_text(ctx, ob, slim="tight")))
         if len(ob.hyps) > 90:
